@@ -103,7 +103,7 @@ def max_phase_gap(sample, data):
     data : `~thejoker.RVData`
     """
     phase = np.sort(data.phase(sample['P']))
-    phase = np.concatenate((phase, phase))
+    phase = np.concatenate((phase, phase[:1] + 1.0))
     return (phase[1:] - phase[:-1]).max()
 
 
